@@ -162,3 +162,17 @@ def report_structural(run, sfailed, prefix, analysis):
         run.violation("%s:%s:%s" % (prefix, fq.split("::")[1], " ".join(desc.split())[:80]),
                       "%s: structural obligation no longer holds: %s (%d failed)" % (fq, desc, len(sfailed)),
                       {"obligation": desc, "function": fq, "analysis": analysis}, no_input=True)
+
+
+def symtab_obligations(run):
+    from pyvc import symtab
+    a = open(run.src("fitting/sympy_symbols.py")).read()
+    b = open(run.src("fitting/likelihood.py")).read()
+    fq = "esr/fitting/sympy_symbols.py + likelihood.py::symbol tables"
+    run.add_function(fq, "fitting/sympy_symbols.py", note="agreement of the generation-stage and fitting-stage symbol tables (structural, pyvc/symtab.py)")
+    failed = []
+    for desc, ok, line in symtab.obligations(a, b):
+        run.add_obligation("symtab/" + desc, fq, "proved" if ok else "refuted", "pyvc.symtab (AST comparison)", 0.0, desc)
+        if not ok:
+            failed.append((fq, desc, line))
+    return failed
